@@ -141,6 +141,10 @@ def run(ctx):
     for r in range(ctx.scale(6, 30)):
         runs.append((["enqprio", 1 + r % 2, r % 3, (r // 3) % 2], "NOTRUN", "task_arena::enqueue into a normal-priority arena in which nobody waits, while an arena of %s priority has worker demand (%s), max_allowed_parallelism = %d" % (
             ["high", "normal", "low"][r % 3], ["a thread busy inside execute() with spawned tasks", "left over from a finished parallel_for"][(r // 3) % 2], 1 + r % 2)))
+    for r in range(ctx.scale(6, 18)):
+        A, R = [(1, 1), (2, 1), (4, 1), (1, 1), (3, 1), (3, 0)][r % 6]
+        runs.append((["enqafter", A, R, r % 3], "NOTRUN", "task_arena(%d,%d) used before (%s), then a fire-and-forget enqueue with nobody joining the arena must run exactly once within 6 s" % (
+            A, R, ["a thread spawned there and idled in task_group::wait", "a parallel_for ran there", "an earlier enqueue ran there"][r % 3])))
     for r in range(ctx.scale(6, 60)):
         runs.append((["bq", 1 + r % 3, 1 + r % 2, 2 + r % 2, ctx.seed * 100 + r], "BADITEMS", "concurrent_bounded_queue: blocked pushes, abort() (holes), later blocked pushes, pops: every producer must be woken when its slot is free"))
     ctx.rules.append("monitor-mt / arena-enqueue / bounded-queue wake-up (oracle only): real threads; every waiter returns (watchdog), every enqueued task runs within 2 s without any waiting call")
